@@ -91,13 +91,14 @@ def specEnv (r : SrcReq) : Env :=
       | .panic s => .panic s
       | .ok stmt => Spec.evalSpec r.so true res m w stmt }
 
-def sessionLine (env : Env) (fuel : Nat) (loaded : Machine) (w : World) (d : Dbg) : String :=
+def sessionLine (env : Env) (fuel : Nat) (loaded : Machine) (w : World) (d : Dbg) (nm : Bool := false) :
+    String :=
   let fmt (head : String) (att : Bool) (d : Dbg) (m : Machine) (w : World) (ex : List Word) : String :=
     let pcs := ex.reverse
     head ++ " " ++ showRegs m ++ " |" ++ memDiff loaded m ++ " | " ++ showWorld w ++ " | " ++
       toString pcs.length ++ " " ++ hex16 (fnv pcs) ++ " | " ++ toString d.ncmds ++ " " ++
       hex16 (fnv (d.cmdAt.reverse.map (BitVec.ofNat 16))) ++ " | " ++
-      showBps att d ++ " | " ++ showErr d
+      showBps att d ++ " | " ++ (if nm then "~" else showErr d)
   match runLoop env fuel true d loaded w [] with
   | .done att d m w ex => fmt "done" att d m w ex
   | .exit c att d m w ex => fmt ("exit " ++ toString c) att d m w ex
